@@ -355,10 +355,6 @@ func ruleX3(p *Prog, r *Report) {
 			n++
 			r.Decide(found, R, "health-predicate:"+pr.name, p.Pos(h.Pos()), "an error return is control dependent on this predicate", "CheckStorageHealth no longer fails on this condition ("+pr.name+"): unhealthy storages of that kind would be accepted")
 		}
-		// every reference resolves: the map that records the referenced ids (key converted from a SlabIDStorable)
-		// is ranged over, and each key is looked up among the slabs of the storage with an error on the miss edge.
-		// (The climb from leaves to roots only resolves ids that lie on such a path: a missing childless slab does not.)
-		n++
 		var refMap ssa.Value
 		eachInstr(h, func(in ssa.Instruction) {
 			mu, ok := in.(*ssa.MapUpdate)
@@ -381,6 +377,117 @@ func ruleX3(p *Prog, r *Report) {
 				}
 			}
 		})
+		// every (child, parent) edge is owner-checked: in the climb from a childless slab towards its root, once the
+		// parent of the current slab was found, no path leaves the iteration (next iteration, break, return success)
+		// without passing the owner comparison - a parent that was already visited through a sibling included
+		n++
+		{
+			var foundEdge *ssa.BasicBlock
+			var lookupBlk *ssa.BasicBlock
+			for _, blk := range h.Blocks {
+				ifi, ok := blk.Instrs[len(blk.Instrs)-1].(*ssa.If)
+				if !ok {
+					continue
+				}
+				ex, ok := canon(ifi.Cond).(*ssa.Extract)
+				if !ok || ex.Index != 1 {
+					continue
+				}
+				lk, ok := ex.Tuple.(*ssa.Lookup)
+				if !ok || !lk.CommaOk {
+					continue
+				}
+				// the parent lookup of the climb: key is the loop-carried id, not a SlabIDStorable conversion, and the
+				// lookup sits in a loop whose miss edge records a root
+				if typeName(lk.Index.Type()) != "SlabID" || loopHeadOf(blk) == nil || refMap == nil || canon(lk.X) != refMap {
+					continue
+				}
+				fromStorable := false
+				for k, depth := canon(lk.Index), 0; depth < 4; depth++ {
+					if typeName(k.Type()) == "SlabIDStorable" {
+						fromStorable = true
+						break
+					}
+					switch x := k.(type) {
+					case *ssa.Convert:
+						k = canon(x.X)
+					case *ssa.ChangeType:
+						k = canon(x.X)
+					default:
+						depth = 4
+					}
+				}
+				if fromStorable {
+					continue // the two-parents test of the scan, not the climb
+				}
+				// the found edge is succ 0 (cond is `found`), possibly negated
+				foundEdge, lookupBlk = blk.Succs[0], blk
+				if u, isNot := ifi.Cond.(*ssa.UnOp); isNot && u.Op == token.NOT {
+					foundEdge = blk.Succs[1]
+				}
+				// prefer the lookup whose miss edge stores into a map (roots)
+				missHasMapUpdate := false
+				miss := blk.Succs[1]
+				if foundEdge == blk.Succs[1] {
+					miss = blk.Succs[0]
+				}
+				for _, y := range miss.Instrs {
+					if _, ok := y.(*ssa.MapUpdate); ok {
+						missHasMapUpdate = true
+					}
+				}
+				if missHasMapUpdate {
+					break
+				}
+				foundEdge = nil
+			}
+			ownerPred := preds[1].cond
+			good := foundEdge != nil
+			var escape ssa.Instruction
+			if foundEdge != nil {
+				head := loopHeadOf(lookupBlk)
+				seen := map[*ssa.BasicBlock]bool{}
+				var walk func(b *ssa.BasicBlock)
+				walk = func(b *ssa.BasicBlock) {
+					if seen[b] || escape != nil {
+						return
+					}
+					seen[b] = true
+					last := b.Instrs[len(b.Instrs)-1]
+					if b == head {
+						escape = last // next iteration without the comparison
+						return
+					}
+					if ifi, ok := last.(*ssa.If); ok && ownerPred(canon(ifi.Cond)) {
+						return // owner comparison reached
+					}
+					if ret, ok := last.(*ssa.Return); ok {
+						if c, _ := classifyReturn(ret); c != retError {
+							escape = ret
+						}
+						return
+					}
+					if !blockInLoop(b, head) {
+						escape = last // left the climb (break) without the comparison
+						return
+					}
+					for _, sc := range b.Succs {
+						walk(sc)
+					}
+				}
+				walk(foundEdge)
+				good = escape == nil
+			}
+			pos := p.Pos(h.Pos())
+			if escape != nil {
+				pos = p.InstrPos(escape)
+			}
+			r.Decide(good, R, "health-predicate:every-edge-owner-checked", pos, "once a slab's parent is found the climb always compares their owners before moving on", "the climb can move on (or stop) after finding a slab's parent without comparing their owners: a slab owned by another address is accepted when its parent was already visited through a sibling")
+		}
+		// every reference resolves: the map that records the referenced ids (key converted from a SlabIDStorable)
+		// is ranged over, and each key is looked up among the slabs of the storage with an error on the miss edge.
+		// (The climb from leaves to roots only resolves ids that lie on such a path: a missing childless slab does not.)
+		n++
 		resolved := false
 		if refMap != nil {
 			eachInstr(h, func(in ssa.Instruction) {
@@ -426,7 +533,7 @@ func ruleX3(p *Prog, r *Report) {
 		}
 		r.Decide(resolved, R, "health-predicate:every-reference-resolves", p.Pos(h.Pos()), "every recorded reference is looked up among the storage's slabs and a miss is an error", "a referenced slab that is missing from storage is only noticed if it lies on a path from a childless slab to a root: deleting a childless referenced slab (a leaf data slab, a large-value slab) leaves a dangling reference that the health check accepts")
 	}
-	r.Floor(R, "walkers and predicates", 8, n)
+	r.Floor(R, "walkers and predicates", 9, n)
 }
 
 // X4 iterator agreement: sibling Next* methods advance the same cursor fields.
@@ -1094,4 +1201,12 @@ func recvFieldRoot(fn *ssa.Function, v ssa.Value, depth int) string {
 		}
 	}
 	return "?"
+}
+
+// blockInLoop: b belongs to the natural loop headed by head (head dominates b and b can reach head).
+func blockInLoop(b, head *ssa.BasicBlock) bool {
+	if head == nil || !head.Dominates(b) {
+		return false
+	}
+	return b == head || canReachBlock(b, head)
 }
